@@ -18,12 +18,13 @@ import (
 func init() { register("C12", runC12) }
 
 // c12DefaultVariant chooses the Lean variant the correspondence compares the code with:
-// "asis" = runner.go / ir_loader.go as they stand, "fixed" = after fixes/comment-rule-line.diff
-// (a comment rule reports the line of the matching alternative).
+// "fixed" = runner.go / ir_loader.go as they stand; "asis" = before fixes/comment-rule-line.diff
+// (every alternative of a comment rule reports the rule's line); "crasis" = before fixes/c12-cr-offsets.diff
+// (indices into the CR-stripped comment text used as distances in the file, Rg/Model/CommentAsIs.lean).
 const c12DefaultVariant = "fixed"
 
 var c12Variant = func() string {
-	if v := os.Getenv("VERIF_C12_VARIANT"); v == "asis" || v == "fixed" {
+	if v := os.Getenv("VERIF_C12_VARIANT"); v == "asis" || v == "fixed" || v == "crasis" {
 		return v
 	}
 	return c12DefaultVariant
@@ -69,6 +70,9 @@ func c12Regexp(r *rand.Rand) string {
 		"(?P<a>)W", "(?P<a>W)(?P<ab> ?V)", "(?P<ab>W)|(?P<a>V)", `\b(?P<w>\pL+)\b`, "(?P<a>.)$", "(?i)(?P<a>W)",
 		`(?m)^(?P<a>\s*\*.*)$`, `(?P<a>W) (?P<b>V)`, `(?P<a>[^ ]+) (?P<b>[^ ]*)$`, "((?P<a>W)|(?P<b>V))+", `(?P<a>\PL*)W`, `(?s)(?P<a>W.*V)`,
 		`(?P<a>W)|(?P<a>V)`, `(?P<x1>W)(?P<x12>.?)`, `(?P<a>W)?V`, `(?P<long_name>W)`, `W(?P<a>\s*)`, `(?P<a>(?P<b>(?P<c>W)))`,
+		// pieces that begin, end or lie across line breaks (where go/scanner strips carriage returns) and kept `*\r/`
+		`(?P<a>W)\s+(?P<b>V)`, `(?P<a>\s+)W`, `W(?P<a>\s+)(?P<b>\S*)`, `(?s)(?P<a>W.+)`, `(?P<a>[^\n]*)\n(?P<b>[^\n]*)`, `\n(?P<a>[^\n]*)`,
+		`(?m)W(?P<a>.*)(?P<b>$)`, `(?m)(?P<a>^)(?P<b>.?)`, `(?P<a>\*)(?P<b>\r?)/`, `(?P<a>\r)`, `(?s)(?P<a>\n.*\n)`, `(?P<a>\S+)(?P<b>\s*)$`, `\n`, `(?s)W.*V`,
 	}
 	s := t[r.Intn(len(t))]
 	return strings.NewReplacer("W", w, "V", v).Replace(s)
@@ -287,6 +291,38 @@ func c12File(r *rand.Rand, crlf bool) (src string, kinds []string) {
 		default:
 			fmt.Fprintf(&sb, "var w%d = %d%s", i, i, nl)
 		}
+		if crlf && r.Intn(2) == 0 { // carriage returns the scanner strips or keeps, in every position
+			t := func() string { return c12CommentText(r) }
+			switch r.Intn(9) {
+			case 0:
+				sb.WriteString("/* " + t() + " *\r/ " + t() + " */" + nl)
+				kinds = append(kinds, "cr:kept-star-cr-slash")
+			case 1:
+				sb.WriteString("/* " + t() + nl + " *\r\r/ " + t() + nl + t() + " */" + nl)
+				kinds = append(kinds, "cr:star-cr-cr-slash")
+			case 2:
+				sb.WriteString("/* " + t() + "\r" + t() + " \r\r" + t() + " */" + nl)
+				kinds = append(kinds, "cr:stray-in-block")
+			case 3:
+				sb.WriteString("// " + t() + "\r" + t() + "\r\r" + nl)
+				kinds = append(kinds, "cr:stray-in-line")
+			case 4:
+				sb.WriteString("/*" + nl + t() + nl + nl + t() + nl + "*/" + nl)
+				kinds = append(kinds, "cr:block-breaks-at-ends")
+			case 5:
+				sb.WriteString("/*\r/ " + t() + " *\r/" + nl + t() + "*\r*/" + nl)
+				kinds = append(kinds, "cr:after-opening")
+			case 6:
+				sb.WriteString("/* " + t() + "\n" + t() + "\r\n" + t() + "\n\r" + t() + " */" + nl)
+				kinds = append(kinds, "cr:mixed-breaks")
+			case 7:
+				sb.WriteString("/*" + t() + nl + t() + "*/ /* " + t() + nl + " */ // " + t() + nl)
+				kinds = append(kinds, "cr:adjacent-multiline")
+			default:
+				sb.WriteString("/*\r" + nl + "\r" + t() + "\r" + nl + "\r*/" + nl)
+				kinds = append(kinds, "cr:around-breaks")
+			}
+		}
 	}
 	switch r.Intn(4) { // a comment that ends at EOF
 	case 0:
@@ -295,9 +331,66 @@ func c12File(r *rand.Rand, crlf bool) (src string, kinds []string) {
 	case 1:
 		sb.WriteString("/* " + c12CommentText(r) + " */")
 		kinds = append(kinds, "eof-block")
+	case 2:
+		if crlf {
+			sb.WriteString("/* " + c12CommentText(r) + nl + c12CommentText(r) + " */")
+			kinds = append(kinds, "eof-block-multiline")
+		}
 	}
 	return sb.String(), kinds
 }
+
+// ---------------------------------------------------------------- carriage returns: the harness's own arithmetic
+
+// c12RawEnd: where the source bytes of the comment starting at src[start] end (what go/scanner takes as `lit`).
+func c12RawEnd(src string, start int) int {
+	if start+1 < len(src) && src[start+1] == '/' {
+		if k := strings.IndexByte(src[start:], '\n'); k >= 0 {
+			return start + k
+		}
+		return len(src)
+	}
+	if k := strings.Index(src[start+2:], "*/"); k >= 0 {
+		return start + 2 + k + 2
+	}
+	return len(src)
+}
+
+// c12Origins: for every byte of text its index in raw, text being raw with some carriage returns removed
+// (each byte as far left as possible); ok=false when text is not that.
+func c12Origins(raw, text string) (at []int, ok bool) {
+	p := 0
+	for i := 0; i < len(text); i++ {
+		for p < len(raw) && raw[p] != text[i] {
+			if raw[p] != '\r' {
+				return nil, false
+			}
+			p++
+		}
+		if p >= len(raw) {
+			return nil, false
+		}
+		at = append(at, p)
+		p++
+	}
+	return at, true
+}
+
+// c12RawSpan: the part of raw that text[lo:hi] stands for.
+func c12RawSpan(at []int, lo, hi int) (int, int) {
+	after := func(i int) int {
+		if i == 0 {
+			return 0
+		}
+		return at[i-1] + 1
+	}
+	if lo < hi {
+		return at[lo], after(hi)
+	}
+	return after(lo), after(lo)
+}
+
+func c12NoCR(s string) string { return strings.ReplaceAll(s, "\r", "") }
 
 // ---------------------------------------------------------------- protocol
 
@@ -370,11 +463,19 @@ func runC12(c *Ctx) error {
 	if c.Thorough {
 		nSets, nFiles = 6000, 12
 	}
-	res.Rule = fmt.Sprintf("(1) hascap: regexpHasCaptureGroups through the hook vs the model's walk over syntax.Parse's tree, on generated regexps; "+
+	res.Rule = fmt.Sprintf("(0) scantext: ast.Comment.Text of go/parser vs the model of go/scanner's CR stripping, on generated comments with carriage returns in every position and on every comment of the e2e files; "+
+		"textspan: commentTextSpan through the hook vs the model, on generated (source, comment text, index pair) incl. sources that are not the text's, no source, indices out of range; "+
+		"(1) hascap: regexpHasCaptureGroups through the hook vs the model's walk over syntax.Parse's tree, on generated regexps; "+
 		"(2) e2e: %d generated MatchComment rule sets (named / unnamed / non-participating / nested / duplicate-name groups, Where on group texts, Report/Suggest templates, At) x %d generated files each "+
-		"(line, block, multi-line, adjacent, trailing, inside-function comments, multi-byte prefixes, a comment at offset 0, a comment ending at EOF, CRLF files; in memory and on disk) through Engine.Run: "+
+		"(line, block, multi-line, adjacent, trailing, inside-function comments, multi-byte prefixes, a comment at offset 0, a comment ending at EOF; CRLF files with block comments over several lines, stray carriage returns, kept `*\\r/`; in memory and on disk) through Engine.Run: "+
 		"every comment's report (Pos, End, Message, Suggestion, rule line) or absence of one vs model `runCommentRules` fed with the real regexp's index vectors; "+
-		"(3) the executable statement `spec12` on every implementation report. Distinct by (rule set, file, comment); non-trivial when some rule's regexp matches the comment.", nSets, nFiles)
+		"(3) the executable statement `spec12` on every implementation report (precondition: the runner can read the file, or no carriage return was stripped from the comment); "+
+		"(4) every Suggest is applied to the file's bytes and the edited file compared with the file edited at the bytes the match stands for (harness's own arithmetic), and, carriage returns ignored, with the edit done on the comment text. "+
+		"Distinct by (rule set, file, comment); non-trivial when some rule's regexp matches the comment.", nSets, nFiles)
+
+	if err := c12Scan(c); err != nil {
+		return err
+	}
 
 	if err := c12HasCap(c); err != nil {
 		return err
@@ -383,6 +484,130 @@ func runC12(c *Ctx) error {
 		return err
 	}
 	return c12Malformed(c)
+}
+
+// c12Scan: (a) go/parser's comment text vs the model of the scanner's carriage-return stripping;
+// (b) commentTextSpan (through the hook) vs the model, on sources that are, and are not, the text's.
+func c12Scan(c *Ctx) error {
+	res := c.Res
+	r := hx.Rng(c.Seed, "c12-scan")
+	n := 400
+	if c.Thorough {
+		n = 12000
+	}
+	alphabet := []string{"\r", "\r", "\r", "*", "/", "a", " ", "\n", "é", "*\r/", "\r\n", "*\r\r/", "b"}
+	var ops, impl, ops2, impl2 []string
+	var inputs, inputs2 []interface{}
+	hand := []string{"//\r", "// a\r", "//\r\r", "/*\r*/", "/*\r/*/", "/**\r/*/", "/* *\r/ */", "/* \r*\r/ */", "/* *\r\r/ */", "/*\r\n*/", "// a\rb", "//a\r\rb\r", "/***\r/*/", "/* a\r\n foo */"}
+	for i := 0; i < n+len(hand); i++ {
+		var raw string
+		if i < len(hand) {
+			raw = hand[i]
+		} else {
+			var sb strings.Builder
+			k := r.Intn(9)
+			for j := 0; j < k; j++ {
+				sb.WriteString(alphabet[r.Intn(len(alphabet))])
+			}
+			body := sb.String()
+			if r.Intn(3) == 0 {
+				raw = "//" + strings.ReplaceAll(body, "\n", "\r")
+			} else {
+				raw = "/*" + strings.ReplaceAll(body, "*/", "*\r/") + "*/"
+				if k := strings.Index(raw[2:], "*/"); k+4 != len(raw) { // the body ended in `*`: `/*…**/` is fine, `/*/` + `*/` is not one comment
+					raw = "/* " + strings.ReplaceAll(body, "*/", "*\r/") + " */"
+				}
+			}
+		}
+		pre := []string{"package p\n", "package p\r\n", "", "package p\n\tvar x = 1 "}[r.Intn(4)]
+		post := []string{"\n", "\npackage q\n", ""}[r.Intn(3)]
+		if pre == "" {
+			post = "\npackage p\n"
+		}
+		if strings.HasSuffix(post, "package q\n") {
+			post = "\nvar y = 2\n"
+		}
+		src := pre + raw + post
+		t, perr := hx.ParseTargetMem("scan.go", src)
+		if perr != nil || len(t.File.Comments) == 0 {
+			res.Dist("scantext:unparsable")
+			continue
+		}
+		cm := t.File.Comments[0].List[0]
+		off := t.Fset.Position(cm.Pos()).Offset
+		if off != len(pre) || c12RawEnd(src, off) != len(pre)+len(raw) {
+			res.Errorf("c12 scan: comment %q of %q found at %d..%d", raw, src, off, c12RawEnd(src, off))
+			continue
+		}
+		ops = append(ops, "scantext "+hx.HexS(raw))
+		impl = append(impl, hx.HexS(cm.Text))
+		inputs = append(inputs, map[string]interface{}{"raw": raw, "file": src})
+		res.Count("scantext", raw, strings.Contains(raw, "\r"))
+		switch {
+		case !strings.Contains(raw, "\r"):
+			res.Dist("scantext:no-cr")
+		case strings.Contains(cm.Text, "\r"):
+			res.Dist("scantext:cr-kept")
+		default:
+			res.Dist("scantext:cr-stripped")
+		}
+		// commentTextSpan on this comment: every index pair of a short text, a sample of a long one
+		text := cm.Text
+		for k := 0; k < 6; k++ {
+			b, e := 0, 0
+			if len(text) > 0 {
+				b = r.Intn(len(text) + 1)
+				e = b + r.Intn(len(text)+1-b)
+			}
+			srcArg, base, textArg := src, off, text
+			kind := "own-source"
+			switch r.Intn(10) {
+			case 0:
+				srcArg, kind = "", "no-source"
+			case 1:
+				srcArg, kind = strings.ReplaceAll(src, "\r", ""), "source-without-cr"
+				base = strings.Index(srcArg, c12NoCR(raw))
+			case 2:
+				if len(text) > 3 {
+					bs := []byte(src)
+					bs[off+2+r.Intn(len(raw)-2)] ^= 1
+					srcArg, kind = string(bs), "source-differs"
+				}
+			case 3:
+				e, kind = len(text)+1+r.Intn(2), "end-out-of-range"
+				if r.Intn(2) == 0 {
+					srcArg = src[:off+r.Intn(len(raw)+1)]
+				}
+			case 4:
+				base, kind = len(src)+r.Intn(3), "base-at-or-past-end"
+			case 5:
+				srcArg, kind = src[:off+r.Intn(len(raw)+1)], "source-cut-short"
+			}
+			if base < 0 {
+				base = 0
+			}
+			ops2 = append(ops2, fmt.Sprintf("textspan %s %d %s %d %d", hx.HexS(srcArg), base, hx.HexS(textArg), b, e))
+			impl2 = append(impl2, hx.Safe(func() string {
+				f, t := ruleguard.VerifCommentTextSpan([]byte(srcArg), base, textArg, b, e)
+				return fmt.Sprintf("ok %d %d", f, t)
+			}))
+			inputs2 = append(inputs2, map[string]interface{}{"src": srcArg, "base": base, "text": textArg, "begin": b, "end": e})
+			res.Count("textspan", fmt.Sprintf("%q/%d/%q/%d/%d", srcArg, base, textArg, b, e), true)
+			out := impl2[len(impl2)-1]
+			switch {
+			case strings.HasPrefix(out, "panic"):
+				res.Dist("textspan:" + kind + ":panic")
+			case out == fmt.Sprintf("ok %d %d", base+b, base+e):
+				res.Dist("textspan:" + kind + ":plain-arithmetic")
+			default:
+				res.Dist("textspan:" + kind + ":shifted")
+			}
+		}
+	}
+	if err := res.Compare(c.Drv, "scantext", ops, impl, inputs); err != nil {
+		return err
+	}
+	return res.Compare(c.Drv, "textspan", ops2, impl2, inputs2)
 }
 
 func c12HasCap(c *Ctx) error {
@@ -427,6 +652,13 @@ func c12FixedCases() []c12Case {
 	return []c12Case{
 		{[]c12Rule{{group: "g0", alts: []string{"(?P<w>foo)"}, report: "w=$w all=$$", suggest: "X"}},
 			[]string{"package p\n// a foo b\n", "package p\r\n/* a\r\n foo */\r\n", "// foo\npackage p\n", "package p\n/* foo */", "package p\r\n// foo\r\n"}},
+		// carriage returns: a match before / after / across the stripped ones, an empty group at the end of a line, a kept `*\r/`,
+		// a stray one inside the match, the final one of a `//` line, a block comment that ends at EOF
+		{[]c12Rule{{group: "g0", alts: []string{`(?s)(?P<x>a.*foo)`}, filter: []c12Atom{{true, "x", "a\n foo"}}, report: "x=$x", suggest: "$$!", at: "x"},
+			{group: "g0", alts: []string{`(?m)b(?P<e>$)`}, report: "eol", suggest: ";", at: "e"},
+			{group: "g1", alts: []string{`(?P<s>\*)(?P<r>\r)/`}, report: "kept [$r]", suggest: "<$s>", at: "r"},
+			{group: "g1", alts: []string{`(?P<w>x\w*)$`}, report: "last=$w", suggest: "$w$w"}},
+			[]string{"package p\r\n/* a\r\n foo */\r\n", "package p\r\n/* b\r\n\r\n b\r *\r\r/ */\r\nvar v = 1 // xy\r\r\n// xz\r\n/* c\r\n foo xyz*/", "/*\r\n a\r\r\n foo*\r/\r\n*/package p\r\n"}},
 		{[]c12Rule{{group: "g0", alts: []string{"begining", "bizzare"}, report: "$$ may contain a typo"}},
 			[]string{"package p\n// a bizzare begining\n// bizzare\n"}},
 		{[]c12Rule{{group: "g0", alts: []string{"(?P<x>collegue)|(commitee)"}, report: "x=[$x] $$"}, {group: "g0", alts: []string{"commitee"}, report: "second"}},
@@ -447,6 +679,8 @@ func c12E2E(c *Ctx, nSets, nFiles int) error {
 	defer os.RemoveAll(tmp)
 	var ops, impl, specOps []string
 	var inputs []interface{}
+	var scanOps, scanImpl []string
+	var scanInputs []interface{}
 	fixed := c12FixedCases()
 	for si := 0; si < nSets+len(fixed); si++ {
 		// a rule set: 1..3 groups of 1..3 rules (after the hand-picked small cases)
@@ -480,7 +714,7 @@ func c12E2E(c *Ctx, nSets, nFiles int) error {
 			nf = 2 * len(fixedFiles)
 		}
 		for fi := 0; fi < nf; fi++ {
-			crlf := fi%4 == 3
+			crlf := fi%4 == 3 || fi%8 == 4 // on disk (3, 7, …) and in memory (4, 12, …)
 			onDisk := fi%2 == 1
 			var src string
 			var kinds []string
@@ -523,7 +757,9 @@ func c12E2E(c *Ctx, nSets, nFiles int) error {
 					cms = append(cms, cm{t.Fset.Position(cc.Pos()).Offset, cc.Text})
 				}
 			}
-			// attribute each report to the last comment starting at or before its position
+			// attribute each report to the last comment starting at or before its position; an empty node where one
+			// comment ends and the next one begins (`/*a*//*b*/`) belongs to the one in which the reporting alternative's
+			// At group (or whole match) lies there
 			byComment := map[int][]hx.Report{}
 			for _, rep := range reports {
 				at := -1
@@ -531,6 +767,11 @@ func c12E2E(c *Ctx, nSets, nFiles int) error {
 					if cc.off <= rep.Pos {
 						at = i
 					}
+				}
+				if at > 0 && rep.Pos == rep.End && rep.Pos == cms[at].off && c12RawEnd(src, cms[at-1].off) == rep.Pos &&
+					len(byComment[at-1]) == 0 && !c12GroupAt(flat, cms[at].text, rep.RuleLine, 0) && c12GroupAt(flat, cms[at-1].text, rep.RuleLine, len(cms[at-1].text)) {
+					at--
+					res.Dist("attribution:empty-node-between-adjacent-comments")
 				}
 				byComment[at] = append(byComment[at], rep)
 			}
@@ -553,11 +794,30 @@ func c12E2E(c *Ctx, nSets, nFiles int) error {
 				default:
 					got = fmt.Sprintf("%d reports for one comment", len(byComment[ci]))
 				}
+				// the scanner model on this comment; the harness's own alignment of text and source
+				raw := src[cc.off:c12RawEnd(src, cc.off)]
+				scanOps = append(scanOps, "scantext "+hx.HexS(raw))
+				scanImpl = append(scanImpl, hx.HexS(cc.text))
+				scanInputs = append(scanInputs, map[string]interface{}{"raw": raw, "file": src})
+				res.Count("scantext", "e2e:"+raw, raw != cc.text)
+				crStripped := raw != cc.text
+				if crStripped {
+					res.Dist("comment:cr-stripped")
+				}
+				if len(byComment[ci]) == 1 && byComment[ci][0].HasSugg && (onDisk || !crStripped) {
+					c12CheckEdit(res, flat, src, cc.off, raw, cc.text, byComment[ci][0], map[string]interface{}{"rules": rulesSrc, "file": src, "on_disk": onDisk, "comment_offset": cc.off, "comment_text": cc.text})
+				}
 				rs := c12RulesSexp(flat, cc.text)
 				ops = append(ops, fmt.Sprintf("cmrun %s %d %s %d %d %s %s", c12Variant, cfg, hx.HexS(fileSrc), len(src), cc.off, hx.HexS(cc.text), rs))
 				impl = append(impl, got)
 				specOps = append(specOps, fmt.Sprintf("spec12 %d %s %d %s %s %s", cfg, hx.HexS(src), cc.off, hx.HexS(cc.text), rs, strings.ReplaceAll(got, " ", ";")))
-				in := map[string]interface{}{"rules": rulesSrc, "file": src, "on_disk": onDisk, "comment_offset": cc.off, "comment_text": cc.text, "TruncateLen": cfg}
+				if !onDisk && crStripped {
+					// the runner cannot read the file and the comment text is not the file's bytes: it has no way of
+					// knowing where the carriage returns were; outside the property's domain, left to the correspondence
+					specOps[len(specOps)-1] = ""
+					res.Dist("spec12:skipped:unreadable-file-and-cr-stripped")
+				}
+				in := map[string]interface{}{"rules": rulesSrc, "file": src, "on_disk": onDisk, "comment_offset": cc.off, "comment_text": cc.text, "TruncateLen": cfg, "cr_stripped": crStripped}
 				inputs = append(inputs, in)
 				matched := false
 				for _, l := range flat {
@@ -578,10 +838,28 @@ func c12E2E(c *Ctx, nSets, nFiles int) error {
 	if err := res.Compare(c.Drv, "e2e", ops, impl, inputs); err != nil {
 		return err
 	}
+	if err := res.Compare(c.Drv, "scantext", scanOps, scanImpl, scanInputs); err != nil {
+		return err
+	}
 	// the executable statement of the property on the implementation's own outcome
-	ans, err := c.Drv.Ask(specOps)
+	var askOps []string
+	var askIdx []int
+	for i, o := range specOps {
+		if o != "" {
+			askOps = append(askOps, o)
+			askIdx = append(askIdx, i)
+		}
+	}
+	askAns, err := c.Drv.Ask(askOps)
 	if err != nil {
 		return err
+	}
+	ans := make([]string, len(specOps))
+	for i := range ans {
+		ans[i] = "holds"
+	}
+	for k, a := range askAns {
+		ans[askIdx[k]] = a
 	}
 	for i, a := range ans {
 		if a == "holds" {
@@ -595,7 +873,7 @@ func c12E2E(c *Ctx, nSets, nFiles int) error {
 		}
 		// go/scanner strips carriage returns from comment text: inside a multi-line block comment of a CRLF
 		// file the text is shorter than the bytes it came from
-		crStripped := strings.Contains(in["file"].(string), "\r") && strings.Contains(in["comment_text"].(string), "\n")
+		crStripped := in["cr_stripped"].(bool)
 		for _, clause := range strings.Split(strings.TrimPrefix(a, "violates "), ",") {
 			sig := "comment-rule:" + clause
 			switch {
@@ -610,6 +888,94 @@ func c12E2E(c *Ctx, nSets, nFiles int) error {
 		}
 	}
 	return nil
+}
+
+// c12GroupAt: does the alternative on line `line` put its At group (or whole match) as an empty piece at index i of text
+func c12GroupAt(flat []c12Loaded, text string, line, i int) bool {
+	for k := range flat {
+		l := &flat[k]
+		if l.rule.altLines[l.alt] != line {
+			continue
+		}
+		idx := l.re.FindStringSubmatchIndex(text)
+		if idx == nil {
+			return false
+		}
+		lo, hi := idx[0], idx[1]
+		if l.rule.at != "" {
+			for gi, nm := range l.re.SubexpNames() {
+				if gi > 0 && nm == l.rule.at {
+					lo, hi = idx[2*gi], idx[2*gi+1]
+					break
+				}
+			}
+		}
+		return lo == i && hi == i
+	}
+	return false
+}
+
+// c12CheckEdit applies the report's Suggest to the file's bytes and compares the result with the file edited where
+// the harness's own arithmetic puts the match: the reporting alternative is found by its line, the match (or the At
+// group) by the real regexp on the comment text, its place in the file by c12Origins.  Second, without any
+// alignment: with carriage returns ignored, the edited file is the file with the edit done on the comment text.
+func c12CheckEdit(res *hx.Result, flat []c12Loaded, src string, off int, raw, text string, rep hx.Report, in map[string]interface{}) {
+	var l *c12Loaded
+	for i := range flat {
+		if flat[i].rule.altLines[flat[i].alt] == rep.RuleLine {
+			l = &flat[i]
+			break
+		}
+	}
+	if l == nil {
+		return // the rule-line clause of the spec reports this
+	}
+	idx := l.re.FindStringSubmatchIndex(text)
+	if idx == nil {
+		return // not the first accepting rule: the spec reports this
+	}
+	lo, hi := idx[0], idx[1]
+	if l.rule.at != "" {
+		for gi, nm := range l.re.SubexpNames() {
+			if gi > 0 && nm == l.rule.at {
+				lo, hi = idx[2*gi], idx[2*gi+1]
+				break
+			}
+		}
+		if lo < 0 || hi < 0 {
+			lo, hi = 0, 0 // a group that did not participate sits, empty, at the comment's start
+		}
+	}
+	at, ok := c12Origins(raw, text)
+	if !ok {
+		res.Errorf("c12: comment text %q is not its source %q with carriage returns removed", text, raw)
+		return
+	}
+	f, t := c12RawSpan(at, lo, hi)
+	want := src[:off+f] + rep.Repl + src[off+t:]
+	got := "edit outside the file"
+	if 0 <= rep.From && rep.From <= rep.To && rep.To <= len(src) {
+		got = src[:rep.From] + rep.Repl + src[rep.To:]
+	}
+	res.Count("suggest-edit", fmt.Sprintf("%q/%d/%d/%q", src, rep.From, rep.To, rep.Repl), true)
+	if raw != text {
+		res.Dist("suggest-edit:cr-stripped-comment")
+		if c12NoCR(src[off+f:off+t]) != src[off+f:off+t] {
+			res.Dist("suggest-edit:cr-inside-the-replaced-span")
+		}
+	} else {
+		res.Dist("suggest-edit:plain")
+	}
+	wantNoCR := c12NoCR(src[:off]) + c12NoCR(text[:lo]+rep.Repl+text[hi:]) + c12NoCR(src[off+len(raw):])
+	if got != want || c12NoCR(got) != wantNoCR {
+		sig := "comment-rule:suggest-edit"
+		if raw != text {
+			sig = "runCommentRules:CR-stripped-comment-text:offsets-into-Text-used-as-file-offsets"
+		}
+		in["edited"] = got
+		res.Violate(hx.Violation{Signature: sig, What: "applying the Suggest to the file's bytes does not replace the bytes the match stands for",
+			Input: in, Impl: fmt.Sprintf("%d:%d %q -> %q", rep.From, rep.To, rep.Repl, got), Spec: fmt.Sprintf("%d:%d -> %q", off+f, off+t, want)})
+	}
 }
 
 // c12Malformed: rule shapes outside the property's quantifier (At / Where naming a group the regexp does not
